@@ -5,9 +5,9 @@ from common import lean_stage
 from vlib import Check
 
 RULE = ('histories generated from VERIF_SEED by checks/wl_gen.py (families: random walk, overwrite-under-snapshot chain, tombstone-over-deeper-value, '
-        'disjoint ranges, case-folding comparator with randomly spelled keys, level-0 chains with partial manual compactions, one user key split over adjacent files with neighbouring-range compactions, data pushed down to the deepest level; 11 option sets incl. 4 comparators, compression, filters, tiny caches, no-mmap, reuse_logs, paranoid) run on the real database '
+        'disjoint ranges, case-folding comparator with randomly spelled keys, level-0 chains with partial manual compactions, one user key split over adjacent files with neighbouring-range compactions, data pushed down to the deepest level, seek-triggered compactions at level 0 and level 1 (>= 100 lookups charged to one table); 11 option sets incl. 4 comparators, compression, filters, tiny caches, no-mmap, reuse_logs, paranoid) run on the real database '
         '(ASan+UBSan build of the current tree) with a 64 KiB write buffer; every applied version edit, table content, get, iterator step and directory '
-        'listing is validated by lean tracecheck against the Lsm model (stepOk, invCheck, Lsm.get) and against the plain history of writes; '
+        'listing is validated by lean tracecheck against the Lsm model (stepOk, invCheck, Lsm.get; the output of every non-trivial compaction is recomputed with Compaction.expectedOutput from the model's copies of its inputs and compared entry by entry) and against the plain history of writes; '
         'a history is non-trivial when it contains >= 1 flush and >= 1 compaction; distinct = distinct (family, options, counters)')
 
 
@@ -22,7 +22,7 @@ def run(pid, tier, tags, theorems, imports, targets, quick=(24, 45), thorough=(4
             wl_run.run_histories(chk, per, nops, tags, 'histories-' + fam, family=fam, journal=journal, oracle_tags=oracle_tags)
     else:
         wl_run.run_histories(chk, n, nops, tags, 'histories', journal=journal, oracle_tags=oracle_tags)
-    for fam in ('casefold', 'l0chain', 'splitkey', 'deep'):
+    for fam in ('casefold', 'l0chain', 'splitkey', 'deep', 'seekcompact'):
         if not families or fam not in families:
             wl_run.run_histories(chk, max(6, n // 4), nops, tags, 'histories-' + fam, family=fam, journal=journal, oracle_tags=oracle_tags)
     if extra:
